@@ -73,11 +73,72 @@ def arr(hexes, single):
     return a[0] if single else a
 
 
+def _flatten(x, out):
+    if isinstance(x, list):
+        for y in x:
+            _flatten(y, out)
+    else:
+        out.append(x)
+    return out
+
+
 def rows_hex(a, width):
-    a = np.ascontiguousarray(a)
+    """the rows of a returned array, read through nested tolist() (no assumption on its memory layout)"""
     if a.dtype != np.uint8:
         return None
-    return [bytes(r.tolist()).hex() for r in a.reshape(-1, width)] if a.size else []
+    flat = _flatten(a.tolist(), [])
+    if not flat or width <= 0 or len(flat) % width:
+        return []
+    return [bytes(flat[i: i + width]).hex() for i in range(0, len(flat), width)]
+
+
+# integer dtypes and memory layouts under which the functions accept a key argument on the unchanged tree (probed: every combination
+# below gives the result of the C-ordered uint8 copy; int8 is left out: des.key_schedule raises OverflowError on it under numpy 2)
+DTYPES_OK = ['uint8', 'uint16', '>u2', '<i2', '>i4', 'uint32', 'int64', '>u8', 'uint64']
+LAYOUTS_2D = ['fortran', 'transposed', 'strided', 'negrows', 'negcols', 'offset', 'readonly', 'fortran_readonly']
+LAYOUTS_1D = ['strided', 'neg', 'offset', 'readonly']
+
+
+def apply_layout(x, layout):
+    """an array equal to x element-wise (same shape, same dtype) with another memory layout / representation"""
+    x = np.asarray(x)
+    if layout in (None, 'c'):
+        return x
+    if layout == 'readonly':
+        r = x.copy()
+        r.setflags(write=False)
+        return r
+    if layout == 'offset':                       # the data start 3 bytes into a larger buffer (unaligned base for wide dtypes)
+        raw = np.zeros(x.nbytes + 7, dtype='uint8')
+        r = raw[3: 3 + x.nbytes].view(x.dtype).reshape(x.shape)
+        r[...] = x
+        return r
+    if x.ndim == 1:
+        if layout == 'strided':
+            big = np.zeros(x.size * 3 + 2, dtype=x.dtype)
+            big[2::3] = x
+            return big[2::3]
+        if layout == 'neg':
+            return x[::-1].copy()[::-1]
+        raise ValueError(f'layout {layout} needs a batch')
+    if layout == 'fortran':
+        return np.asfortranarray(x)
+    if layout == 'fortran_readonly':
+        r = np.asfortranarray(x).copy(order='F')
+        r.setflags(write=False)
+        return r
+    if layout == 'transposed':                   # a (L, n) table of byte columns, transposed
+        return np.ascontiguousarray(x.T).T
+    if layout == 'strided':
+        big = np.zeros((x.shape[0] * 2 + 1, x.shape[1] * 3 + 2), dtype=x.dtype)
+        v = big[1::2, 2::3][:x.shape[0], :x.shape[1]]
+        v[...] = x
+        return v
+    if layout == 'negrows':
+        return x[::-1].copy()[::-1]
+    if layout == 'negcols':
+        return x[:, ::-1].copy()[:, ::-1]
+    raise ValueError(f'unknown layout {layout}')
 
 
 def hx(h):
@@ -123,6 +184,22 @@ class AesExpansionKind(CallKind):
             'of each size, every col_in to both ends for the all-zero and all-0xFF keys, sampled pairs for random keys, 1-D keys and '
             'batches of 1..4 keys, col_out omitted, refused calls; non-trivial = at least one column is computed (not just copied)')
 
+    def __init__(self):
+        # byte strings that occur in dozens of cases (the keys of the exhaustive sweeps and their windows) are written once, as named
+        # definitions in the header of the cases file, and referred to by name: a third less text for Coq to parse
+        self._swept = set()
+        self._defs = {}
+
+    @property
+    def header(self):
+        return (HDR + '\nFrom Coq Require Import NArith List. Import ListNotations.'
+                + ''.join(f'\nDefinition {name} : list N := {hx(h)}.' for h, name in self._defs.items()))
+
+    def _name(self, h):
+        if h not in self._defs:
+            self._defs[h] = f'kb{len(self._defs)}'
+        return self._defs[h]
+
     def _case(self, klen, masters, single, ci, co):
         return {'klen': klen, 'masters': masters, 'single': single, 'col_in': ci, 'col_out': co}
 
@@ -132,6 +209,7 @@ class AesExpansionKind(CallKind):
             exhaustive_keys = [FIPS_KEYS[klen][0]]
             if tier != 'quick':
                 exhaustive_keys += [rand_hex(rng, klen) for _ in range(2)]
+            self._swept.update(exhaustive_keys + ['00' * klen, 'ff' * klen, FIPS_KEYS[klen][1]])
             for key in exhaustive_keys:
                 for ci in range(tot - nk + 1):
                     for co in range(tot + 1):
@@ -195,10 +273,11 @@ class AesExpansionKind(CallKind):
 
     def coq(self, case, obs):
         raised = obs.get('raised') == 'ValueError'
+        lit = self._name if (len(case['masters']) == 1 and case['masters'][0] in self._swept) else hx
         return ('{| ke_klen := %s; ke_single := %s; ke_masters := %s; ke_col_in := %s; ke_col_out := %s; ke_windows := %s; '
                 'ke_raised := %s; ke_obs_shape := %s; ke_obs := %s |}' % (
-                    C.coq_nat(case['klen']), C.coq_bool(case['single']), C.coq_list(case['masters'], hx), C.coq_nat(case['col_in']),
-                    opt_nat(case['col_out']), C.coq_list(obs.get('windows') or [], hx), C.coq_bool(raised),
+                    C.coq_nat(case['klen']), C.coq_bool(case['single']), C.coq_list(case['masters'], lit), C.coq_nat(case['col_in']),
+                    opt_nat(case['col_out']), C.coq_list(obs.get('windows') or [], lit), C.coq_bool(raised),
                     expect_shape(obs), C.coq_list(obs.get('rows') or [], hx)))
 
     def oracle(self, case, obs):
@@ -668,10 +747,12 @@ class HistoryKind(Kind):
 
     # ---- step builders
     @staticmethod
-    def _st(kind, case, off=0, astype=None):
+    def _st(kind, case, off=0, astype=None, layout=None):
         s = {'kind': kind.name, 'case': case, 'off': off}
         if astype:
             s['astype'] = astype
+        if layout:
+            s['layout'] = layout
         return s
 
     def _ks(self, keys, single, klen=None, **kw):
@@ -818,6 +899,9 @@ class HistoryKind(Kind):
                 v = views[key]                                  # the SAME ndarray object whenever offset and shape repeat
                 v[...] = x                                      # rewritten in place
                 arg = v.astype(st['astype']) if st.get('astype') else v
+                if st.get('layout'):
+                    arg = apply_layout(arg, st['layout'])
+                    assert arg.shape == v.shape and bool((arg == v).all())
                 out.append(kind.invoke(st['case'], arg, extra))
             except Exception as e:  # an unexpected exception of one call is the observation of that call
                 out.append({'raised': type(e).__name__, 'msg': str(e)[:160]})
@@ -858,7 +942,242 @@ class HistoryKind(Kind):
         return {'case': case, 'observed': {'steps': [{k: (v[:1] if isinstance(v, list) else v) for k, v in o.items()} for o in obs.get('steps', [])]}}
 
 
-KINDS = [AesExpansionKind(), AesScheduleKind(), AesInvKind(), DesScheduleKind(), DesMasterKeyKind(), DesCandidatesKind(), HistoryKind()]
+# ---------------------------------------------------------------------------------------------- memory layout / representation
+
+class LayoutKind(HistoryKind):
+    name = 'key_layout'
+    shard = 30
+    rule = ('one or two calls of aes.key_schedule / key_expansion (forward, backward) / inv_key_schedule and des.key_schedule / '
+            'get_master_key whose key argument equals a C-ordered uint8 array element-wise but is stored otherwise: Fortran-ordered and '
+            'transposed batches (also read-only), strided / negative-stride / offset-base views, read-only arrays, big-endian and wider '
+            'integer dtypes (every combination accepted by the unchanged code; int8 is not generated), 1-D keys, (1, L) and (n, L) batches; '
+            'the results are read through nested tolist(); each call is compared with the spec; non-trivial = batch of >= 2 keys')
+
+    def gen(self, rng, tier):
+        k = 0
+        reps = 1 if tier == 'quick' else 4
+
+        def dt():
+            return DTYPES_OK[k % len(DTYPES_OK)]
+        for rep in range(reps):
+            for lay in LAYOUTS_2D:
+                for n in (2, 3, 1):
+                    for klen in (16, 24, 32):
+                        if tier == 'quick' and (k + klen // 8) % 2 and n != 2:
+                            k += 1
+                            continue
+                        nk, tot = klen // 4, TOTAL[klen]
+                        keys = [rand_hex(rng, klen) for _ in range(n)]
+                        ci = rng.randint(0, tot - nk)
+                        steps = [self._ks(keys, False, astype=dt(), layout=lay),
+                                 self._ke(keys, False, ci, rng.randint(ci + 1, tot) if ci < tot else None, astype=dt(), layout=lay),
+                                 self._ke(keys, False, ci, rng.randint(0, ci), astype=dt(), layout=lay)]
+                        if klen == 16:
+                            steps.append(self._inv(keys, False, rng.choice([None] + list(range(11))), astype=dt(), layout=lay))
+                        for st in steps:
+                            yield {'steps': [st]}
+                        k += 1
+                    dkeys = [rand_hex(rng, 8) for _ in range(n)]
+                    yield {'steps': [self._dk(dkeys, False, rng.choice([None] + list(range(16))), astype=dt(), layout=lay)]}
+                    k += 1
+                yield {'steps': [self._mk(rng, dense_hex(rng, 8), rng.randint(0, 15), astype=dt(), layout=lay)]}
+                k += 1
+            for lay in LAYOUTS_1D:
+                for klen in (16, 24, 32):
+                    nk, tot = klen // 4, TOTAL[klen]
+                    key = [rand_hex(rng, klen)]
+                    yield {'steps': [self._ks(key, True, astype=dt(), layout=lay),
+                                     self._ke(key, True, rng.randint(0, tot - nk), rng.randint(0, tot), astype=dt(), layout=lay)]}
+                    k += 1
+                yield {'steps': [self._inv([rand_hex(rng, 16)], True, rng.randint(0, 10), astype=dt(), layout=lay),
+                                 self._dk([rand_hex(rng, 8)], True, rng.randint(0, 15), astype=dt(), layout=lay)]}
+                k += 1
+            # the same batch under two layouts, one call after the other
+            for lay in ('fortran', 'transposed'):
+                keys = [rand_hex(rng, 16) for _ in range(4)]
+                yield {'steps': [self._ks(keys, False), self._ks(keys, False, layout=lay), self._inv(keys, False, 10, layout=lay)]}
+                dkeys = [rand_hex(rng, 8) for _ in range(5)]
+                yield {'steps': [self._dk(dkeys, False, None, layout=lay), self._dk(dkeys, False, 4)]}
+
+    def nontrivial(self, case, obs):
+        return any(len(st['case'].get('masters', st['case'].get('keys', []))) >= 2 for st in case['steps'])
+
+    def features(self, case, obs):
+        st = case['steps'][0]
+        return {'fn': st['kind'], 'layout': st.get('layout', 'c'), 'dtype': st.get('astype', 'uint8')}
+
+    def tags(self, case, obs):
+        return ['key_layout'] + sorted({'layout_' + str(st.get('layout', 'c')) for st in case['steps']})
+
+    def shrink(self, case):
+        s = case['steps']
+        if len(s) > 1:
+            for i in range(len(s)):
+                yield {'steps': s[:i] + s[i + 1:]}
+        for i, st in enumerate(s):
+            if st.get('astype') and st['astype'] != 'uint8':
+                yield {'steps': s[:i] + [{k: v for k, v in st.items() if k != 'astype'}] + s[i + 1:]}
+            keys = st['case'].get('masters') or st['case'].get('keys')
+            if keys and len(keys) > 2:
+                f = 'masters' if 'masters' in st['case'] else 'keys'
+                yield {'steps': s[:i] + [dict(st, case=dict(st['case'], **{f: keys[:2]}))] + s[i + 1:]}
+
+
+# ---------------------------------------------------------------------------------------------- count boundaries
+
+COUNTS = (255, 256, 257, 1023, 1024, 1025, 4097, 65537)
+MARKS = (255, 256, 257, 1023, 1024, 1025, 4095, 4096, 4097, 65535, 65536)
+
+
+def _runs_for(n, m, k):
+    """run-length description of n rows over m distinct keys: long runs whose borders fall off the powers of two, a short last run"""
+    a = n // 3 + (k % 5)
+    b = n // 3 + 1
+    tail = 1 + k % 3
+    c = n - a - b - tail
+    runs = [[0, a], [1 % m, b], [2 % m, c], [(m - 1), tail]]
+    return [r for r in runs if r[1] > 0]
+
+
+class CountsKind(Kind):
+    name = 'counts'
+    header = HDR
+    case_type = 'cnt_case'
+    check_fn = 'cnt_check'
+    explain_fn = 'cnt_expected'
+    shard = 2
+    rule = ('count boundaries: ONE call of aes.key_schedule / key_expansion / inv_key_schedule / des.key_schedule on a batch of n = 255, 256, '
+            '257, 1023, 1024, 1025, 4097, 65537 keys (windows, round keys); the rows are 2-4 distinct keys given run-length encoded and '
+            'expanded inside Coq; the rows at the first and last occurrence of every key, around 256 / 1024 / 4096 / 65536, the last three '
+            'and a sample of 40 are compared in Coq with the spec and the model of their key; in Python the whole array is compared '
+            'with these validated rows; non-trivial = always')
+
+    def gen(self, rng, tier):
+        k = 0
+        for rep in range(1 if tier == 'quick' else 3):
+            for n in COUNTS:
+                m = 2 + k % 3
+                klen = (16, 24, 32)[k % 3]
+                nk, tot = klen // 4, TOTAL[klen]
+                yield {'fn': 'ks', 'klen': klen, 'keys': [rand_hex(rng, klen) for _ in range(m)], 'runs': _runs_for(n, m, k)}
+                klen = (24, 32, 16)[k % 3]
+                nk, tot = klen // 4, TOTAL[klen]
+                ci = rng.randint(0, tot - nk)
+                yield {'fn': 'ke', 'klen': klen, 'col_in': ci, 'col_out': rng.choice([None, rng.randint(0, tot), rng.randint(0, ci)]),
+                       'keys': [rand_hex(rng, klen) for _ in range(m)], 'runs': _runs_for(n, m, k + 1)}
+                yield {'fn': 'inv', 'round': rng.choice([None] + list(range(11))), 'keys': [rand_hex(rng, 16) for _ in range(m)],
+                       'runs': _runs_for(n, m, k + 2)}
+                yield {'fn': 'dk', 'last': rng.choice([None, 15, rng.randint(0, 14)]), 'keys': [rand_hex(rng, 8) for _ in range(m)],
+                       'runs': _runs_for(n, m, k + 3)}
+                k += 1
+
+    @staticmethod
+    def _index(case):
+        return np.repeat(np.array([r[0] for r in case['runs']], dtype=np.int64), np.array([r[1] for r in case['runs']], dtype=np.int64))
+
+    def run(self, case):
+        import random
+        import scared
+        idx = self._index(case)
+        n = len(idx)
+        fn = case['fn']
+        keys = arr(case['keys'], False)
+        if fn == 'ks':
+            inputs = keys
+        elif fn == 'ke':
+            nk = case['klen'] // 4
+            inputs = np.ascontiguousarray(scared.aes.key_expansion(keys)[:, 4 * case['col_in']: 4 * (case['col_in'] + nk)])
+        elif fn == 'inv':
+            inputs = np.ascontiguousarray(scared.aes.key_schedule(keys)[:, 10 if case['round'] is None else case['round'], :])
+        else:
+            inputs = keys
+        x = np.ascontiguousarray(inputs[idx])
+        before = x.copy()
+        if fn == 'ks':
+            out = scared.aes.key_schedule(x)
+        elif fn == 'ke':
+            out = scared.aes.key_expansion(x, col_in=case['col_in']) if case['col_out'] is None else \
+                scared.aes.key_expansion(x, col_in=case['col_in'], col_out=case['col_out'])
+        elif fn == 'inv':
+            out = scared.aes.inv_key_schedule(x) if case['round'] is None else scared.aes.inv_key_schedule(x, round_in=case['round'])
+        else:
+            out = scared.des.key_schedule(x) if case['last'] is None else scared.des.key_schedule(x, interrupt_after_round=case['last'])
+        out = np.asarray(out)
+        obs = {'inputs': rows_hex(inputs, inputs.shape[1]), 'shape': list(out.shape), 'dtype': str(out.dtype),
+               'input_unchanged': bool((x == before).all())}
+        if out.ndim < 2 or out.shape[0] != n or out.dtype != np.uint8:
+            obs['rows'] = []
+            obs['whole'] = f'the result has shape {list(out.shape)} and dtype {out.dtype} for {n} rows'
+            return obs
+        flat = out.reshape(n, -1)
+        first, last, pos = {}, {}, 0
+        for p, c in case['runs']:
+            first.setdefault(p, pos)
+            last[p] = pos + c - 1
+            pos += c
+        first_of = np.zeros(len(case['keys']), dtype=np.int64)
+        for p, i in first.items():
+            first_of[p] = i
+        bad = np.nonzero((flat != flat[first_of[idx]]).any(axis=1))[0]
+        obs['whole'] = None
+        want = set(first.values()) | set(last.values()) | {n - 1, n - 2, n - 3} | {i for i in MARKS if i < n}
+        rs = random.Random(n * 31 + len(case['keys']))
+        want |= {rs.randrange(n) for _ in range(40)}
+        if len(bad):
+            i = int(bad[0])
+            obs['whole'] = (f'row {i} of the result differs from row {int(first_of[idx[i]])}, which has the same key '
+                            f'({len(bad)} such rows, the last one {int(bad[-1])})')
+            want |= {i, int(bad[-1])}
+        obs['rows'] = [[i, bytes(flat[i].tolist()).hex()] for i in sorted(x_ for x_ in want if 0 <= x_ < n)]
+        return obs
+
+    def coq(self, case, obs):
+        fn = case['fn']
+        if fn == 'ks':
+            f = f'(CntKs {C.coq_nat(case["klen"])})'
+        elif fn == 'ke':
+            f = f'(CntKe {C.coq_nat(case["klen"])} {C.coq_nat(case["col_in"])} {opt_nat(case["col_out"])})'
+        elif fn == 'inv':
+            f = f'(CntInv {opt_nat(case["round"])})'
+        else:
+            f = f'(CntDk {opt_nat(case["last"])})'
+        return '{| cn_fn := %s; cn_keys := %s; cn_inputs := %s; cn_runs := %s; cn_shape := %s; cn_rows := %s |}' % (
+            f, C.coq_list(case['keys'], hx), C.coq_list(obs.get('inputs') or [], hx),
+            C.coq_list(case['runs'], lambda r: f'({int(r[0])}%nat, {int(r[1])}%N)'),
+            '(' + C.coq_list(obs.get('shape', []), str) + ')%N',
+            C.coq_list(obs.get('rows') or [], lambda r: f'({int(r[0])}%N, {hx(r[1])})'))
+
+    def oracle(self, case, obs):
+        n = sum(r[1] for r in case['runs'])
+        if 'raised' in obs:
+            return f'{case["fn"]} on {n} rows raised {obs["raised"]}: {obs.get("msg")}'
+        if obs.get('whole'):
+            return f'{case["fn"]} on {n} rows: {obs["whole"]}'
+        if not obs['input_unchanged']:
+            return f'{case["fn"]} on {n} rows modified its input'
+        return None
+
+    def features(self, case, obs):
+        return {'fn': case['fn'], 'n': sum(r[1] for r in case['runs']), 'keys': len(case['keys'])}
+
+    def tags(self, case, obs):
+        return ['counts', 'counts_' + case['fn']]
+
+    def sample(self, case, obs):
+        return {'case': case, 'observed': dict(obs, rows=(obs.get('rows') or [])[:3])}
+
+    def shrink(self, case):
+        n = sum(r[1] for r in case['runs'])
+        m = len(case['keys'])
+        for smaller in (257, 1025, 4097):
+            if smaller < n:
+                yield dict(case, runs=_runs_for(smaller, m, 0))
+
+
+
+
+KINDS = [AesExpansionKind(), AesScheduleKind(), AesInvKind(), DesScheduleKind(), DesMasterKeyKind(), DesCandidatesKind(), HistoryKind(),
+         LayoutKind(), CountsKind()]
 
 
 def coverage_extra():
